@@ -264,7 +264,13 @@ class FuncGen:
             return '(not %s)' % self.expr('bool', d)
         if c == 5:
             self.f('membership')
-            return '(%s %s %s)' % (self.expr('int', d), r.choice(['in', 'not in']), self.expr(r.choice(['list', 'tuple', 'dict']), d))
+            ck = r.choice(['list', 'tuple', 'dict'])
+            cont = self.expr(ck, d)
+            if cont[:1] in '[({':
+                # membership in a *display* is compiled to an ==-chain without CPython's identity shortcut
+                # (nan in [nan]); that is C19's recorded subject - here the container is always an object
+                cont = '%s(%s)' % (ck, cont)
+            return '(%s %s %s)' % (self.expr('int', d), r.choice(['in', 'not in']), cont)
         if c == 6:
             self.f('chained_cmp')
             return '(%s < %s <= %s)' % (self.expr('int', d), self.expr('int', d), self.expr('int', d))
